@@ -103,6 +103,28 @@ def c01(ctx):
     ctx.require("batch_forms")
 
 
+def py_traces(ctx, coders):
+    """impl -> spec through the PYTHON front end (src/pybindings, cargo feature `pybindings`, default preset u32/u64/24): seeded
+    random histories run through the Python API (all three call forms: single symbol, iid array, model family with
+    per-symbol parameters; Uniform, Categorical fast eager/lazy, CustomModel on step CDFs; import/export, seal/unseal, clone, seek,
+    clear, impossible symbols, decoders over garbage) and TLC validates every recorded call exactly against BigAns / BigRange with
+    the model tables predicted by FixedPoint.tla (TracePyAns.tla, TracePyRange.tla)."""
+    n = 6000 if ctx.tier == "thorough" else 1500
+    jobs = []
+    for coder in coders:
+        trace = ctx.pydrive(coder, n)
+        if trace:
+            jobs.append(dict(module={"ans": "TracePyAns", "range": "TracePyRange", "chain": "TracePyChain"}[coder], trace=trace,
+                             constants={"W": 32, "S": 64, "LB": 12}, invariants=["StateInv"], what="Python front end: %s coder" % coder, timeout=1500))
+    ctx.validate_traces(jobs)
+    for coder in coders:
+        for c in {"ans": ("py_enc_family_fast", "py_dec_iid_array", "py_from_binary", "py_seek", "py_model_fast_lazy", "py_model_leaky"),
+                  "range": ("py_enc_steered", "py_dec_family_leaky", "py_seek", "py_dec_invalid_data", "py_exhausted_after_message")}.get(coder, ()):
+            ctx.require(c)
+    if "range" in coders:
+        ctx.require("trace_steps_with_words_held_back")
+
+
 def big_equiv(ctx):
     """The limb-arithmetic specifications used for exact validation at the real widths (Big, BigAns, BigRange) are tied to the
     primary specifications: TLC checks exhaustively at small widths, with limbs of 1-3 bits so that every number spans several
@@ -131,6 +153,7 @@ def big_equiv(ctx):
 @prop("C06")
 def c06(ctx):
     big_equiv(ctx)
+    py_traces(ctx, ["ans", "range"])
     ans_traces(ctx, exact=True, abstract=False)
     range_traces(ctx, exact=True)
     range_steered(ctx, exact=True)
